@@ -586,6 +586,7 @@ package gocql
 //@   props C05 C20
 //@   requires s.conn != nil && ctx != nil
 //@   ensures nonnilptr(result0)
+//@   ensures s.conn == old(s.conn) && s.conn.cfg == old(s.conn.cfg) && s.conn.compressor == old(s.conn.compressor)
 
 //@ func (s *startupCoordinator) options
 //@   props C05
